@@ -110,6 +110,18 @@ pub struct DatabaseShard {
     watch_tracker: ShardWatchTracker,
 }
 
+/// Translate a Redis (start, stop) index pair, where negative values count from
+/// the end, into an inclusive in-bounds range; None when the range is empty.
+fn normalize_index_range(len: usize, start: isize, stop: isize) -> Option<(usize, usize)> {
+    let len = len as isize;
+    let start = if start < 0 { len.saturating_add(start).max(0) } else { start };
+    let stop = if stop < 0 { len.saturating_add(stop) } else { stop };
+    if start > stop || start >= len {
+        return None;
+    }
+    Some((start as usize, stop.min(len - 1) as usize))
+}
+
 /// Result of a GET operation
 #[derive(Debug)]
 pub enum GetResult {
@@ -1142,18 +1154,15 @@ impl StorageEngine {
         if let Some(stored_value) = shard_guard.data.get_mut(key) {
             let result = match &stored_value.value {
                 Value::List(list) => {
-                    let len = list.len() as isize;
-                    
-                    let start = if start < 0 { (len + start).max(0) } else { start } as usize;
-                    let stop = if stop < 0 { (len + stop).max(0) } else { stop } as usize;
-                    
                     let mut result = Vec::new();
-                    for (i, item) in list.iter().enumerate() {
-                        if i >= start && i <= stop {
-                            result.push(item.clone());
-                        }
-                        if i > stop {
-                            break;
+                    if let Some((start, stop)) = normalize_index_range(list.len(), start, stop) {
+                        for (i, item) in list.iter().enumerate() {
+                            if i >= start && i <= stop {
+                                result.push(item.clone());
+                            }
+                            if i > stop {
+                                break;
+                            }
                         }
                     }
                     result
@@ -1175,7 +1184,7 @@ impl StorageEngine {
             let result = match &stored_value.value {
                 Value::List(list) => {
                     let len = list.len() as isize;
-                    let idx = if index < 0 { len + index } else { index };
+                    let idx = if index < 0 { len.saturating_add(index) } else { index };
                     
                     if idx >= 0 && idx < len {
                         list.get(idx as usize).cloned()
@@ -1200,7 +1209,7 @@ impl StorageEngine {
             match &mut stored_value.value {
                 Value::List(list) => {
                     let len = list.len() as isize;
-                    let idx = if index < 0 { len + index } else { index };
+                    let idx = if index < 0 { len.saturating_add(index) } else { index };
                     
                     if idx >= 0 && idx < len {
                         list[idx as usize] = value;
@@ -1225,15 +1234,12 @@ impl StorageEngine {
         if let Some(stored_value) = shard_guard.data.get_mut(&key) {
             match &mut stored_value.value {
                 Value::List(list) => {
-                    let len = list.len() as isize;
-                    
-                    let start = if start < 0 { (len + start).max(0) } else { start } as usize;
-                    let stop = if stop < 0 { (len + stop).max(0) } else { stop } as usize;
-                    
                     let mut new_list = VecDeque::new();
-                    for (i, item) in list.iter().enumerate() {
-                        if i >= start && i <= stop {
-                            new_list.push_back(item.clone());
+                    if let Some((start, stop)) = normalize_index_range(list.len(), start, stop) {
+                        for (i, item) in list.iter().enumerate() {
+                            if i >= start && i <= stop {
+                                new_list.push_back(item.clone());
+                            }
                         }
                     }
                     
@@ -1290,7 +1296,7 @@ impl StorageEngine {
                         *list = new_list;
                     } else {
                         let mut new_list = VecDeque::new();
-                        let mut to_remove = (-count) as usize;
+                        let mut to_remove = count.unsigned_abs();
                         
                         for item in list.drain(..).rev() {
                             if item == element && to_remove > 0 {
